@@ -8,7 +8,7 @@ Transcribes
     `p2panda-store/src/cursors/sqlite.rs` (`get_cursor` / `set_cursor` upsert)
 
 `BTreeMap`s are association lists; every function only uses first-match `lookup`, in-place
-`set` and order-preserving `filterMap`, so the theorems need `Nodup` keys only where stated.
+`upsert` and order-preserving `filterMap`, so the theorems need `Nodup` keys only where stated.
 The Rust maps are nested (`author → log → height`); the property speaks about `(author, log)`
 pairs, so the flat form over an arbitrary key type `K` is the one the theorems are about and
 `flatten_compareNested` (P2/Props/C06.lean) relates the two.
@@ -28,9 +28,9 @@ def lookup (k : K) : List (K × V) → Option V
   | (k', v) :: t => if k' = k then some v else lookup k t
 
 /-- `BTreeMap::insert`: replace the value in place, or append a new entry. -/
-def set (k : K) (v : V) : List (K × V) → List (K × V)
+def upsert (k : K) (v : V) : List (K × V) → List (K × V)
   | [] => [(k, v)]
-  | (k', v') :: t => if k' = k then (k, v) :: t else (k', v') :: set k v t
+  | (k', v') :: t => if k' = k then (k, v) :: t else (k', v') :: upsert k v t
 
 def keys (m : List (K × V)) : List K := m.map Prod.fst
 
@@ -70,8 +70,8 @@ def compare (loc rem : Heights K) : Ranges K :=
 /-- `Cursor::advance`: ignore a height lower than or equal to the current one. -/
 def advance (c : Heights K) (k : K) (h : Nat) : Heights K :=
   match lookup k c with
-  | some cur => if cur ≥ h then c else set k h c
-  | none => set k h c
+  | some cur => if cur ≥ h then c else upsert k h c
+  | none => upsert k h c
 
 /-- A sequence of `advance` calls. -/
 def advanceAll (c : Heights K) (hs : List (K × Nat)) : Heights K :=
@@ -147,7 +147,7 @@ def getCursor (t : CursorTable K) (name : Nat) : Heights K :=
 
 /-- `set_cursor`: `INSERT … ON CONFLICT(name) DO UPDATE SET cursor = EXCLUDED.cursor`. -/
 def setCursor (t : CursorTable K) (name : Nat) (c : Heights K) : CursorTable K :=
-  set name c t
+  upsert name c t
 
 inductive AckResult where
   | ok
@@ -175,6 +175,25 @@ def ack (t : CursorTable (Nat × Nat)) (a : Acked) (h : AckHeader) :
     let c := getCursor t a.name
     let c' := advance c (h.author, h.logId) h.seq
     (setCursor t a.name c', .ok)
+
+/-- Two `ack`s through two *separately constructed* handles in the interleaving
+    read₁ read₂ write₁ write₂.  Every `Acked::from_name` / `Acked::new` call creates its own
+    `Semaphore`, so nothing orders the read-advance-write sequences of two handles — also when
+    both use the same cursor name (two streams opened on one topic).  Each side first does its
+    topic check (a rejected ack neither reads nor writes). -/
+def ackRacy (t : CursorTable (Nat × Nat)) (a1 : Acked) (h1 : AckHeader) (a2 : Acked)
+    (h2 : AckHeader) : CursorTable (Nat × Nat) × AckResult × AckResult :=
+  let r1 := if a1.topicLog ≠ h1.logId then none
+            else some (advance (getCursor t a1.name) (h1.author, h1.logId) h1.seq)
+  let r2 := if a2.topicLog ≠ h2.logId then none
+            else some (advance (getCursor t a2.name) (h2.author, h2.logId) h2.seq)
+  let t1 := match r1 with
+            | none => t
+            | some c => setCursor t a1.name c
+  let t2 := match r2 with
+            | none => t1
+            | some c => setCursor t1 a2.name c
+  (t2, (if r1.isSome then .ok else .invalidTopic), (if r2.isSome then .ok else .invalidTopic))
 
 end Acked
 
